@@ -49,7 +49,7 @@ _objcache = {}
 def native_object(san=True):
     """The same TU the IR came from, compiled to an object file (all inline functions emitted)."""
     key = san
-    if key in _objcache and os.path.exists(_objcache[key]):
+    if key in _objcache and os.path.exists(_objcache[key][0]):
         return _objcache[key]
     d = build.scratch()
     src = os.path.join(d, 'emit.cpp')
